@@ -11,7 +11,7 @@
    explicit `map` stages of the Rust pipeline built by the harness (see Enc* below).
    Locks the code holds ACROSS a call into other code are tracked in h.held so that same-thread re-entrancy
    deadlocks are *predicted* (verdict h.stuck) -- DESIGN.md 3.2.
-   h_rev: iteration order of the crate's HashMaps (facade map: insertion order, or its reverse). *)
+   h.rev (default: the constant h_rev): iteration order of the crate's HashMaps (facade map: insertion order, or its reverse). *)
 EXTENDS Integers, Sequences, FiniteSets, TLC
 CONSTANT h_rev
 
@@ -27,12 +27,12 @@ FwdHd(o) == Hd("fwd", o, 0, 0)
 ToSbjHd(j) == Hd("tosbj", j, 0, 0)
 Fuel == 40
 EmptyHeap == [ obs |-> <<>>, ctl |-> <<>>, regs |-> <<>>, inst |-> <<>>, sinkcnt |-> <<>>, out |-> <<>>, fuel |-> Fuel, div |-> FALSE,
-               sbj |-> <<>>, conn |-> <<>>, slots |-> <<>>, held |-> <<>>, stuck |-> "" ]
+               sbj |-> <<>>, conn |-> <<>>, slots |-> <<>>, held |-> <<>>, stuck |-> "", rev |-> h_rev ]
 Ev5(o, u, k, v, w) == [o |-> o, u |-> u, k |-> k, v |-> v, w |-> w]
 Ev(o, u, k, v) == Ev5(o, u, k, v, 0)
 Emit(h, ev) == [h EXCEPT !.out = Append(@, ev)]
 IsSub(h, o) == h.obs[o].n /\ h.obs[o].e /\ h.obs[o].c
-Order(seq) == IF h_rev THEN [i \in 1..Len(seq) |-> seq[Len(seq) + 1 - i]] ELSE seq
+Order(hh, seq) == IF hh.rev THEN [i \in 1..Len(seq) |-> seq[Len(seq) + 1 - i]] ELSE seq
 
 \* integer codecs (items are small naturals 0..9)
 ObsBase == 100000                       \* value ObsBase + j denotes "observable of subject j"
@@ -43,6 +43,7 @@ EncMatE(e) == 1000 + e
 EncMatC == 2000
 ApplyF(f, p, x) == CASE f = "inc" -> x + p [] f = "mul" -> x * p [] f = "const" -> p [] f = "b2i" -> x [] OTHER -> x
 ApplyP(f, p, x) == CASE f = "lt" -> x < p [] f = "ge" -> x >= p [] f = "even" -> x % 2 = 0 [] f = "true" -> TRUE [] f = "eq" -> x = p
+                     [] f = "false" -> FALSE [] f = "nfalse" -> TRUE
                      [] f = "nlt" -> ~(x < p) [] f = "nge" -> ~(x >= p) [] f = "neven" -> x % 2 # 0 [] f = "ntrue" -> FALSE [] f = "neq" -> x # p [] OTHER -> FALSE
 RECURSIVE DecList(_)
 DecList(code) == IF code <= 1 THEN <<>> ELSE Append(DecList(code \div 10), code % 10)
@@ -132,7 +133,7 @@ Finalize(h, c) ==
   IF h.stuck # "" THEN h ELSE
   LET lk == Lk("ups", c)
       h0 == Acquire(h, lk, "R")
-      h1 == Release(UnsubAll(h0, Order(h0.ctl[c].ups)))
+      h1 == Release(UnsubAll(h0, Order(h0, h0.ctl[c].ups)))
       h2 == IF h1.stuck # "" THEN h1 ELSE [Touch(h1, lk, "W") EXCEPT !.ctl[c].ups = <<>>]
       sub == h2.ctl[c].sub
   IN IF h2.stuck # "" THEN h2 ELSE IF IsSub(h2, sub) THEN Unsub(h2, sub) ELSE h2
@@ -176,7 +177,7 @@ OnNext(h, o, hd, x) ==
       t == h.ctl[c].term
       op == t.op
       st == h.ctl[c] IN
-  CASE op \in {"identity", "merge", "retry", "retry_when", "on_error_resume_next", "concat"} -> SinkNext(h, c, x)
+  CASE op \in {"identity", "merge", "retry", "retry_when", "on_error_resume_next", "concat", "map_to_any"} -> SinkNext(h, c, x)
     [] op = "flat_map" ->
          IF hd.b = 0 THEN   \* outer item: subscribe the inner observable on a new observer (port 1)
            LET inner == CASE t.f = "obs" -> Leaf("subject", x - ObsBase)
@@ -316,7 +317,7 @@ OnError(h, o, hd, e) ==
              h1 == IF st.has THEN Touch(h, Lk("acc", c), "W") ELSE [Touch(h, Lk("acc", c), "W") EXCEPT !.ctl[c].has = TRUE, !.ctl[c].acc = hd.s]
          IN IF won THEN SinkError(h1, c, e) ELSE UpAbort(h1, c, hd.s)
     [] op = "window_with_count" -> SinkError(SubjError(h, h.ctl[c].win, e), c, e)
-    [] op = "group_by" -> SinkError(Release(GroupTerminal(Acquire(h, Lk("gb", c), "R"), Order(h.ctl[c].groups), "e", e)), c, e)
+    [] op = "group_by" -> SinkError(Release(GroupTerminal(Acquire(h, Lk("gb", c), "R"), Order(h, h.ctl[c].groups), "e", e)), c, e)
     [] OTHER -> SinkError(h, c, e)
 
 GroupTerminal(h, groups, kind, e) ==
@@ -349,7 +350,7 @@ OnComplete(h, o, hd) ==
              h1 == IF st.buf # <<>> THEN SinkNext(h0, c, EncList(st.buf)) ELSE h0
          IN Release(SinkComplete(h1, c, hd.s))
     [] op = "window_with_count" -> SinkComplete(SubjComplete(h, st.win), c, hd.s)
-    [] op = "group_by" -> SinkComplete(Release(GroupTerminal(Acquire(h, Lk("gb", c), "R"), Order(st.groups), "c", 0)), c, hd.s)
+    [] op = "group_by" -> SinkComplete(Release(GroupTerminal(Acquire(h, Lk("gb", c), "R"), Order(h, st.groups), "c", 0)), c, hd.s)
     [] op = "materialize" -> SinkComplete(SinkNext(h, c, EncMatC), c, hd.s)
     [] op \in {"take_until", "skip_until", "sample"} -> IF hd.b = 0 THEN h ELSE SinkCompleteForce(h, c)
     [] op = "switch_on_next" -> IF hd.b = 1 THEN SinkComplete(h, c, hd.s) ELSE SinkCompleteForce(h, c)
@@ -487,9 +488,9 @@ Broadcast(h, snap, kind, x) ==
   ELSE LET o == Head(snap).o
            h1 == CASE kind = "n" -> CallNext(h, o, x) [] kind = "e" -> CallError(h, o, x) [] OTHER -> CallComplete(h, o)
        IN Broadcast(h1, Tail(snap), kind, x)
-PlainNext(h, j, x) == Broadcast(h, Order(h.sbj[j].map), "n", x)
-PlainError(h, j, x) == LET snap == Order(h.sbj[j].map) IN Broadcast([h EXCEPT !.sbj[j].map = <<>>], snap, "e", x)
-PlainComplete(h, j) == LET snap == Order(h.sbj[j].map) IN Broadcast([h EXCEPT !.sbj[j].map = <<>>], snap, "c", 0)
+PlainNext(h, j, x) == Broadcast(h, Order(h, h.sbj[j].map), "n", x)
+PlainError(h, j, x) == LET snap == Order(h, h.sbj[j].map) IN Broadcast([h EXCEPT !.sbj[j].map = <<>>], snap, "e", x)
+PlainComplete(h, j) == LET snap == Order(h, h.sbj[j].map) IN Broadcast([h EXCEPT !.sbj[j].map = <<>>], snap, "c", 0)
 SubjNext(h, j, x) ==
   IF h.stuck # "" THEN h ELSE
   CASE h.sbj[j].kind = "behavior" -> PlainNext([Touch(h, Lk("last", j), "W") EXCEPT !.sbj[j].last = [has |-> TRUE, v |-> x]], j, x)
